@@ -21,6 +21,7 @@ import (
 
 type obs struct {
 	Suite   string      `json:"suite"`
+	Group   string      `json:"group,omitempty"`  // statistics bucket (default: the suite)
 	Input   string      `json:"input"`            // encoded arguments (driver line minus the suite name)
 	Impl    string      `json:"impl"`             // implementation's observation, driver encoding
 	Model   string      `json:"model,omitempty"`  // model's result
@@ -41,10 +42,10 @@ type violation struct {
 }
 
 type suiteStat struct {
-	Cases      int `json:"cases"`
-	Nontrivial int `json:"nontrivial"`
-	Mismatch   int `json:"mismatch"`
-	OracleFail int `json:"oracle_fail"`
+	Cases      int  `json:"cases"`
+	Nontrivial int  `json:"nontrivial"`
+	Mismatch   int  `json:"mismatch"`
+	OracleFail int  `json:"oracle_fail"`
 	Exhaustive bool `json:"exhaustive,omitempty"`
 }
 
@@ -116,11 +117,11 @@ func (r *runner) stat(s string) *suiteStat {
 	return st
 }
 
-func (r *runner) rule(s string)            { r.rules = append(r.rules, s) }
-func (r *runner) note(s string)            { r.notes = append(r.notes, s) }
-func (r *runner) count(k string)           { r.dist[k]++ }
-func (r *runner) countN(k string, n int)   { r.dist[k] += n }
-func (r *runner) exhaustive(suite string)  { r.stat(suite).Exhaustive = true }
+func (r *runner) rule(s string)           { r.rules = append(r.rules, s) }
+func (r *runner) note(s string)           { r.notes = append(r.notes, s) }
+func (r *runner) count(k string)          { r.dist[k]++ }
+func (r *runner) countN(k string, n int)  { r.dist[k] += n }
+func (r *runner) exhaustive(suite string) { r.stat(suite).Exhaustive = true }
 
 func (r *runner) add(o *obs) {
 	if r.onlySuite != "" && (o.Suite != r.onlySuite || o.Input != r.onlyInput) {
@@ -192,7 +193,11 @@ func (r *runner) flush() {
 }
 
 func (r *runner) account(o *obs) {
-	st := r.stat(o.Suite)
+	g := o.Group
+	if g == "" {
+		g = o.Suite
+	}
+	st := r.stat(g)
 	st.Cases++
 	r.evals++
 	if o.NT {
@@ -206,9 +211,9 @@ func (r *runner) account(o *obs) {
 			st.Nontrivial++
 		}
 	}
-	if r.sampleCnt[o.Suite] < 2 && o.NT && o.Human != nil {
-		r.sampleCnt[o.Suite]++
-		r.samples = append(r.samples, map[string]interface{}{"suite": o.Suite, "case": o.Human, "observed": trunc(o.Impl, 300)})
+	if r.sampleCnt[g] < 2 && o.NT && o.Human != nil {
+		r.sampleCnt[g]++
+		r.samples = append(r.samples, map[string]interface{}{"suite": g, "case": o.Human, "observed": trunc(o.Impl, 300)})
 	}
 	mismatch := !o.NoModel && o.Model != o.Impl
 	if mismatch {
